@@ -273,7 +273,8 @@ class Machine:
                                         "directional", "normed", "structured", "sampled",
                                         "stacked", "no_data", "no_data"])
         elif fn == "vario_axis":
-            op["variant"] = rng.choice(["plain", "masked", "nan"])
+            op["variant"] = rng.choice(["plain", "masked", "nan", "masked_nan", "masked_no_data",
+                                        "no_data"])
         elif fn == "fit_variogram":
             op["variant"] = rng.choice(["plain", "weights", "directional", "sill"])
         elif fn == "normalizer":
@@ -589,9 +590,13 @@ class Machine:
         d = self.dim
         shape = {1: (op["n"] + 3,), 2: (4, 3), 3: (3, 2, 3)}[d]
         vals = self._vals(rs, shape, 0.5, 3.0)
-        if v == "nan":
+        kw = {}
+        if v in ("nan", "masked_nan"):
             vals.flat[1] = np.nan
-        if v == "masked":
+        if v in ("no_data", "masked_no_data"):
+            vals.flat[1] = -999.0
+            kw["no_data"] = -999.0
+        if v.startswith("masked"):
             mask = np.zeros(shape, dtype=bool)
             mask.flat[2] = True
             field = np.ma.array(self.alloc("field", vals, op["layout"], site)
@@ -601,7 +606,7 @@ class Machine:
         else:
             field = self.alloc("field", vals, op["layout"], site)
         res = gs.vario_estimate_axis(field, direction=rs.choice(["x", "y", "z"][:d]),
-                                     estimator=rs.choice(["matheron", "cressie"]))
+                                     estimator=rs.choice(["matheron", "cressie"]), **kw)
         self.track(res, "returned:vario_axis", site, "result")
 
     def _c_standard_bins(self, op, rs, site):
